@@ -522,15 +522,23 @@ evals! {
 }
 
 /// C13 under the schedule engine: adaptor and underlying iterator run the same program under the same
-/// schedule (element clones are not yield points here, so both see identical yield-point sequences).
+/// *coarse* schedule: threads are switched only at semantic points (before the first shared action of an
+/// elementary operation, inside the wrapped probe, at closure invocations, when the running thread
+/// waits); element clones are not yield points. The interleaving a schedule denotes therefore does not
+/// depend on how many atomic accesses an operation performs, and the two executions can be compared
+/// thread by thread.
 pub fn eval_c13(case: &Case) -> Outcome {
     crate::hooks::set_clone_yields(false);
+    crate::hooks::set_coarse(true);
     let ha = run_sched(case);
     let mut ucase = case.clone();
     ucase.kind = case.kind.underlying();
     let hu = run_sched(&ucase);
     crate::hooks::set_clone_yields(true);
-    let verdict = if undecided(&ha) || undecided(&hu) {
+    crate::hooks::set_coarse(false);
+    let verdict = if ha.sched.step_bound_hit || hu.sched.step_bound_hit {
+        Ok(())
+    } else if ha.sched.hang || hu.sched.hang {
         if ha.sched.hang != hu.sched.hang {
             Err(Violation {
                 what: "end-or-skip-differs",
@@ -857,7 +865,7 @@ pub fn check(ctx: &mut Ctx) -> Option<Meta> {
             ],
         ),
         "C13" => (
-            "E1 part: every adaptor kind and its underlying iterator run the same generated multi-threaded program under the same generated schedule (clones are not yield points, so both executions see the same yield-point sequence); oracle: thread by thread identical results (indices, chunk boundaries, lengths, end / skip behaviour, elements), remainder, source intact; non-trivial = >=2 threads, >=1 context switch and a chunk pull or skip".into(),
+            "E1 part: every adaptor kind and its underlying iterator run the same generated multi-threaded program under the same generated *coarse* schedule (threads switch only before the first shared action of an operation, inside the wrapped probe, at closures and when the running thread waits; clones are not yield points), so the interleaving does not depend on the number of atomic accesses per operation; oracle: thread by thread identical results (indices, chunk boundaries, lengths, end / skip behaviour, elements), remainder, source intact; non-trivial = >=2 threads, >=1 context switch and a chunk pull or skip".into(),
             vec![
                 Plan { name: "sched-lockstep", cfg: { let mut c = GenCfg::base(crate::props::ADAPTORS); c.kinds.extend_from_slice(&[Kind::ClonedIterRef, Kind::CopiedIterRef, Kind::ClonedIterRef, Kind::CopiedIterRef]); c.max_len = if t { 16 } else { 8 }; c.min_threads = 2; c.max_threads = 4; c.max_ops = 4; c.w_skip = 3; c.w_len = 1; c.w_has = 1; c.terminal_mode = 2; c.sched_len = if t { 300 } else { 160 }; c }, eval: eval_c13, quick: 30_000, thorough_factor: 50 },
             ],
